@@ -50,9 +50,14 @@ TRUSTED = [
 ]
 ASSUMPTIONS = [
     "premise unique_offsets_per_type (boolean, counted per case as premises_satisfied)",
-    "string feature values are not the reserved text '<NULL>' (it is rendered like None; reported)",
-    "the view of a structure is its sofa: in which views a structure WITHOUT a sofa feature is indexed is not rendered "
-    "(only whether it is indexed at all); the 'moved to another view' variant therefore uses annotations (reported)",
+    "open finding null_sentinel_string: a string feature value equal to the reserved text '<NULL>' is rendered like None; "
+    "generated on purpose by a directed stream, reported as KNOWN-FINDING, refuted in Coq (C20_null_sentinel_refuted)",
+    "open finding view_of_sofaless_fs: in which view a structure WITHOUT a sofa feature is indexed is not rendered (only "
+    "whether it is indexed at all); directed stream, KNOWN-FINDING, C20_view_of_sofaless_refuted; the random 'moved to "
+    "another view' variant uses structures with a sofa",
+    "outside the claim: the contents of lists (IntegerList, FSList, ...) held by a feature without multipleReferencesAllowed "
+    "are not rendered (the cell is empty; the nodes are not listed structures and lists are not in the property's enumeration "
+    "of what must show); content mutations never touch them, the model agrees with the implementation when they are present",
     "view names contain no '(' (sensitivity to the view is proved under this premise)",
 ]
 
@@ -61,6 +66,9 @@ INTLIKE = {T + "Integer", T + "Long", T + "Short", T + "Byte", T + "Boolean"}
 OPTS = [("default", {}), ("nocov", {"covered_text": False}), ("nomark", {"mark_indexed": False}), ("excl", None)]
 EQUAL_KINDS = ["ids", "perm", "xmi", "json"]
 DIFF_KINDS = ["prim", "offset", "ref", "elem", "view", "index"]
+# directed "must differ" variants for the two open findings (known_findings.json): the oracle applies the property as written
+OPEN_KINDS = ["nullstr", "sofaless_view"]
+NULL_SENTINEL = "<NULL>"
 _TS_CACHE = {}
 
 
@@ -177,18 +185,68 @@ def pystr(v):
 
 
 def gen_ts(r):
-    spec = scen.gen_tspec(r, n_types=r.randint(2, 5), max_feats=r.randint(1, 4), awkward=r.random() < 0.35)
-    # two types with one short name: the disambiguation counter is shared by all types
-    names = [t["name"] for t in spec]
-    if "a.c.T1" in names and r.random() < 0.5:
-        ren = {"a.c.T1": "a.c.T0"}
-        for t in spec:
-            t["name"] = ren.get(t["name"], t["name"])
-            t["super"] = ren.get(t["super"], t["super"])
-            for f in t["feats"]:
-                f["range"] = ren.get(f["range"], f["range"])
-                if f.get("elem"):
-                    f["elem"] = ren.get(f["elem"], f["elem"])
+    """Random type system (own copy of the shape of scen.gen_tspec, so that changes there cannot shift the cases of this
+    check): 2-5 user types under Annotation / TOP / AnnotationBase / one another, two of them possibly sharing a short
+    name (the disambiguation counter is shared by all types), features of every kind, reserved and structural names."""
+    n_types, max_feats, awkward = r.randint(2, 5), r.randint(1, 4), r.random() < 0.35
+    names = ["a.b.T0", "a.c.T0" if r.random() < 0.5 else "a.c.T1", "x.b.T2", "NoNs", "q.cas.T4"][:n_types]
+    AB = T + "AnnotationBase"
+    spec = []
+    for n in names:
+        sup = r.choice([scen.ANNOTATION, scen.ANNOTATION, scen.TOP, AB] + [t["name"] for t in spec])
+        spec.append({"name": n, "super": sup, "feats": []})
+    spec.append({"name": "a.MyStr", "super": T + "String", "feats": []})
+    by = {u["name"]: u for u in spec}
+
+    def is_ann(t):
+        while t is not None:
+            if t["super"] == scen.ANNOTATION:
+                return True
+            t = by.get(t["super"])
+        return False
+
+    def chain_names(t):
+        out, cur = set(), t
+        while cur is not None:
+            out.update(f["name"] for f in cur["feats"])
+            cur = by.get(cur["super"])
+        for u in spec:
+            c = u
+            while c is not None and c is not t:
+                c = by.get(c["super"])
+            if c is t:
+                out.update(f["name"] for f in u["feats"])
+        return out
+
+    for t in spec[:-1]:
+        for j in range(r.randint(0, max_feats)):
+            kind = r.choice(["prim", "prim", "arr", "lst", "ref", "fsarr", "fslist", "top", "mystr"])
+            pool = ["f%d" % j, "g%d" % j] + (["self", "type", "begin", "end", "id"] if awkward else [])
+            fn = r.choice(pool) if j else "f0"
+            if fn in ("begin", "end") and is_ann(t):
+                fn = "h%d" % j
+            if fn in chain_names(t):      # one definition per inheritance chain
+                continue
+            multi = r.choice([None, True, False])
+            f = {"name": fn, "elem": None, "multi": None}
+            if kind == "prim":
+                f["range"] = r.choice(sorted(scen.PRIMS))
+            elif kind == "arr":
+                f["range"], f["multi"] = r.choice(sorted(scen.ARRS)), multi
+            elif kind == "lst":
+                f["range"], f["multi"] = r.choice(sorted(scen.LISTS)), multi
+            elif kind == "ref":
+                f["range"] = r.choice(spec[:-1])["name"]
+            elif kind == "fsarr":
+                f["range"], f["multi"] = scen.FS_ARRAY, multi
+                f["elem"] = r.choice([None] + [x["name"] for x in spec[:-1]])
+            elif kind == "fslist":
+                f["range"], f["multi"] = scen.FS_LIST, multi
+            elif kind == "top":
+                f["range"] = scen.TOP
+            else:
+                f["range"] = "a.MyStr"
+            t["feats"].append(f)
     return spec
 
 
@@ -220,7 +278,7 @@ def gen_cas(r, cassis, tspec, schema, ids="all", rt_safe=False):
     def feat(tn, pn):
         return next((f for f in schema[tn]["feats"] if f[0] == pn), None)
 
-    main, ann_view = [], {}
+    main, ann_view, ann_home = [], {}, {}
     for tn in user:
         fb, fe = feat(tn, "begin"), feat(tn, "end")
         offset_type = fb is not None and fe is not None and fb[2] in INTLIKE and fe[2] in INTLIKE
@@ -235,6 +293,7 @@ def gen_cas(r, cassis, tspec, schema, ids="all", rt_safe=False):
                     continue
                 used.add((b, e))
                 l = new(tn, {"begin": {"i": b}, "end": {"i": e}})
+                ann_home[l] = vi
                 indexed = r.random() < 0.65
                 if indexed or rt_safe or r.random() < 0.6:
                     by_l(objs, l)["slots"]["sofa"] = {"sofa": views[vi]["name"]}
@@ -343,17 +402,32 @@ def gen_cas(r, cassis, tspec, schema, ids="all", rt_safe=False):
             if v is not None:
                 o["slots"][pn] = v
         by_label = {o["o"]: o for o in objs}
+    def has_sofa(tn):
+        return feat(tn, "sofa") is not None
+
     for l in main:
+        tn = by_label[l]["type"]
         if l in ann_view:
             members.append([ann_view[l], l])
-        elif not isa(by_label[l]["type"], scen.ANNOTATION) and r.random() < 0.6:
+        elif isa(tn, scen.ANNOTATION):
+            continue
+        elif has_sofa(tn):
+            # subtypes of AnnotationBase: Cas.add sets the sofa, so such a structure is indexed in one view, its own
+            vi = r.randrange(nviews)
+            x = r.random()
+            if x < 0.6:
+                members.append([vi, l])
+            if x < 0.8 or rt_safe:
+                by_label[l]["slots"]["sofa"] = {"sofa": views[vi]["name"]}
+        elif r.random() < 0.6:
             for vi in r.sample(range(nviews), r.randint(1, nviews) if r.random() < 0.3 else 1):
                 members.append([vi, l])
     if not members:
         l = main[0]
-        if isa(by_label[l]["type"], scen.ANNOTATION):
-            by_label[l]["slots"]["sofa"] = {"sofa": views[0]["name"]}
-        members.append([0, l])
+        vi = ann_home.get(l, 0)      # the view its offsets were drawn for
+        if has_sofa(by_label[l]["type"]):
+            by_label[l]["slots"]["sofa"] = {"sofa": views[vi]["name"]}
+        members.append([vi, l])
     r.shuffle(members)
     cspec = {"views": views, "objs": objs, "members": members}
     assign_ids(r, cspec, ids)
@@ -459,9 +533,13 @@ def mutate_cas(r, kind, cspec, schema):
         for l, pn, rng in sites:
             old = by[l]["slots"].get(pn)
             oldt = anchor_tuple(v, old["ref"]) if old else None
-            cands = [m for m in main_labels if rng in schema[by[m]["type"]]["anc"] and anchor_tuple(v, m) != oldt]
-            # the old and the new target must both be listed, otherwise the cell is empty either way
-            cands = [m for m in cands if m in found]
+            # any other listed structure has another anchor (prefix or disambiguation counter); the old and the new target
+            # must both be listed, otherwise the cell is empty either way
+            cands = [m for m in main_labels if rng in schema[by[m]["type"]]["anc"] and m in found
+                     and (old is None or m != old["ref"])]
+            twins = [m for m in cands if anchor_tuple(v, m) == oldt]
+            if twins and r.random() < 0.5:
+                cands = twins
             if old and old["ref"] not in found:
                 continue
             opts_ = [{"ref": m} for m in cands] + ([None] if old else [])
@@ -494,8 +572,7 @@ def mutate_cas(r, kind, cspec, schema):
             if at == scen.FS_ARRAY:
                 i = r.randrange(len(el) + 1)
                 old = el[i] if i < len(el) else "absent"
-                oldt = anchor_tuple(v, old["ref"]) if isinstance(old, dict) else old
-                cands = [{"ref": m} for m in main_labels if m in found and anchor_tuple(v, m) != oldt]
+                cands = [{"ref": m} for m in main_labels if m in found and not (isinstance(old, dict) and old.get("ref") == m)]
                 if old is not None:
                     cands.append(None)
                 if not cands:
@@ -583,14 +660,100 @@ def two_cycle(r, cassis):
     return {"ts": tspec, "cas": cs, "kind": "cycle2", "var": None, "xt": None, "outside": True}
 
 
+def bytearray_roundtrip(r, kind):
+    """A separately listed ByteArray (held by a multipleReferencesAllowed feature or nested in an FSArray) and a round
+    trip: the JSON reader used to return `bytes` elements, which the renderer could not handle (fix 83a4bf1)."""
+    tspec = [{"name": "a.Holder", "super": scen.TOP, "feats": [
+        {"name": "ba", "range": T + "ByteArray", "elem": None, "multi": True},
+        {"name": "arr", "range": scen.FS_ARRAY, "elem": None, "multi": r.choice([True, False, None])},
+        {"name": "n", "range": T + "Integer", "elem": None, "multi": None}]}]
+    el = [{"i": r.randint(0, 255)} for _ in range(r.choice([0, 1, 3]))]
+    slots = {"n": {"i": r.randint(0, 5)}}
+    objs = [{"o": 1, "type": "a.Holder", "id": 10, "slots": slots},
+            {"o": 2, "type": T + "ByteArray", "id": 11, "slots": {"elements": {"list": el}}}]
+    if r.random() < 0.5:
+        slots["ba"] = {"ref": 2}
+    else:
+        objs.append({"o": 3, "type": scen.FS_ARRAY, "id": 12, "slots": {"elements": {"list": [{"ref": 2}, {"ref": 1}]}}})
+        slots["arr"] = {"ref": 3}
+    cs = {"views": [{"name": "_InitialView", "text": [97, 98], "mime": None}], "objs": objs, "members": [[0, 1]]}
+    return {"ts": tspec, "cas": cs, "kind": kind, "var": None, "xt": None}
+
+
+def twin_ref_case(r):
+    """Two types with one short name, one structure of each with the same offsets, view and index status: only the
+    disambiguation counter (shared by all types) tells their anchors apart.  A reference (or an FSArray element) is switched
+    from one to the other: the texts must differ."""
+    tspec = [{"name": "a.b.Tw", "super": scen.ANNOTATION, "feats": []},
+             {"name": "a.c.Tw", "super": scen.ANNOTATION, "feats": []},
+             {"name": "a.Holder", "super": scen.TOP, "feats": [
+                 {"name": "r", "range": scen.TOP, "elem": None, "multi": None},
+                 {"name": "arr", "range": scen.FS_ARRAY, "elem": None, "multi": r.choice([None, True, False])}]}]
+    b = r.randint(0, 3)
+    e = r.randint(b, 3)
+    indexed = r.random() < 0.7
+    twin = {"begin": {"i": b}, "end": {"i": e}, "sofa": {"sofa": "_InitialView"}}
+    objs = [{"o": 1, "type": "a.b.Tw", "id": 21, "slots": dict(twin)}, {"o": 2, "type": "a.c.Tw", "id": 22, "slots": dict(twin)},
+            {"o": 3, "type": "a.Holder", "id": 23, "slots": {}},
+            {"o": 4, "type": scen.FS_ARRAY, "id": 24, "slots": {"elements": {"list": [{"ref": 1}, {"ref": 2}]}}}]
+    objs[2]["slots"]["arr"] = {"ref": 4}      # keeps both twins listed whatever r points to
+    members = [[0, 3]] + ([[0, 1], [0, 2]] if indexed else [])
+    cs = {"views": [{"name": "_InitialView", "text": [97, 98, 99], "mime": None}], "objs": objs, "members": members}
+    var = clone(cs)
+    if r.random() < 0.5:
+        cs["objs"][2]["slots"]["r"] = {"ref": 1}
+        var["objs"][2]["slots"]["r"] = {"ref": 2}
+        kind = "ref"
+    else:
+        var["objs"][3]["slots"]["elements"]["list"] = [{"ref": 2}, {"ref": 2}] if r.random() < 0.5 else [{"ref": 2}, {"ref": 1}]
+        kind = "elem"
+    r.shuffle(cs["objs"])
+    return {"ts": tspec, "cas": cs, "kind": kind, "var": var, "xt": None}
+
+
+def open_finding_case(r, kind):
+    """Directed pairs for the open findings: (nullstr) a String feature set to the literal '<NULL>' vs unset;
+    (sofaless_view) a TOP-subtype structure indexed in view v2 vs _InitialView of a 2-view CAS.  Both are single-point
+    content changes in the sense of the property, so the texts must differ."""
+    tspec = [{"name": "a.T", "super": scen.TOP, "feats": [
+        {"name": "s", "range": T + "String", "elem": None, "multi": None},
+        {"name": "n", "range": T + "Integer", "elem": None, "multi": None}]},
+        {"name": "a.Ann", "super": scen.ANNOTATION, "feats": [{"name": "t", "range": "a.T", "elem": None, "multi": None}]}]
+    views = [{"name": "_InitialView", "text": [97, 98, 99], "mime": None}, {"name": "v2", "text": [100, 101], "mime": None}]
+    objs = [{"o": 1, "type": "a.T", "id": 10, "slots": {"n": {"i": r.randint(0, 9)}}}]
+    members = [[0, 1]]
+    if r.random() < 0.5:
+        objs.append({"o": 2, "type": "a.Ann", "id": 11, "slots": {"begin": {"i": 0}, "end": {"i": r.randint(0, 3)},
+                                                                 "sofa": {"sofa": "_InitialView"}, "t": {"ref": 1}}})
+        members.append([0, 2])
+    cs = {"views": views, "objs": objs, "members": members}
+    var = clone(cs)
+    if kind == "nullstr":
+        if r.random() < 0.5:
+            cs["objs"][0]["slots"]["s"] = {"s": NULL_SENTINEL}
+        else:
+            var["objs"][0]["slots"]["s"] = {"s": NULL_SENTINEL}
+    else:
+        for m in var["members"]:
+            if m[1] == 1:
+                m[0] = 1
+    return {"ts": tspec, "cas": cs, "kind": kind, "var": var, "xt": None}
+
+
 def generate(rng, tier):
     import cassis
-    n = {"quick": 420, "thorough": 4000, "search": 3000}[tier]
+    n = {"quick": 340, "thorough": 2500, "search": 3000}[tier]
     kinds = EQUAL_KINDS + DIFF_KINDS
     made = 0
     attempts = 0
     for k in range(6 if tier != "search" else 0):
         yield two_cycle(rng, cassis)
+    for k in range(6):
+        yield bytearray_roundtrip(rng, ["json", "xmi"][k % 2])
+    for k in range(6 if tier != "search" else 0):
+        yield open_finding_case(rng, OPEN_KINDS[k % 2])
+    for k in range(6):
+        yield twin_ref_case(rng)
     while made < n and attempts < 60 * n:
         attempts += 1
         tspec = gen_ts(rng)
@@ -747,7 +910,7 @@ def oracle(cassis, sc, obs):
         a, b = obs["base"][name]["text"], obs["var"][name]["text"]
         if kind in EQUAL_KINDS and a != b:
             return f"equal:{kind}: texts differ ({name}) although the variant differs only by {kind}"
-        if kind in DIFF_KINDS and name in ("default", "nocov") and a == b:
+        if kind in DIFF_KINDS + OPEN_KINDS and name in ("default", "nocov") and a == b:
             return f"different:{kind}: texts are equal ({name}) although the variant differs in content ({kind})"
     return None
 
@@ -818,7 +981,7 @@ def render(sc, obs):
 
 
 def nontrivial(sc):
-    if sc["kind"] in DIFF_KINDS:
+    if sc["kind"] in DIFF_KINDS + OPEN_KINDS:
         return True
     keys = {}
     for o in sc["cas"]["objs"]:
@@ -833,7 +996,7 @@ def shrink_candidates(sc):
     import cassis
     _ts, schema = _schema(cassis, sc["ts"])
     objs = sc["cas"]["objs"]
-    if sc.get("var") is not None and sc["kind"] in DIFF_KINDS:
+    if sc.get("var") is not None and sc["kind"] in DIFF_KINDS + OPEN_KINDS:
         return      # base and variant must stay in step: no structural shrinking of mutation pairs
     refd = set()
 
@@ -889,8 +1052,47 @@ def mutate(sc, rng):
             yield c
 
 
+def _pair_diff(sc):
+    """How base and variant differ: ([(label, slot, base value, variant value)], members equal?)."""
+    a, b = sc["cas"], sc.get("var")
+    if b is None:
+        return None
+    oa, ob = {o["o"]: o for o in a["objs"]}, {o["o"]: o for o in b["objs"]}
+    if set(oa) != set(ob) or a["views"] != b["views"]:
+        return None
+    slots = []
+    for l in sorted(oa):
+        if oa[l]["type"] != ob[l]["type"]:
+            return None
+        for k in sorted(set(oa[l]["slots"]) | set(ob[l]["slots"])):
+            va, vb = oa[l]["slots"].get(k), ob[l]["slots"].get(k)
+            if va != vb:
+                slots.append((l, k, va, vb))
+    return slots, sorted(map(tuple, a["members"])) == sorted(map(tuple, b["members"]))
+
+
 def signature(sc, msg):
-    return {"what": (msg or "").split(" ")[0].rstrip(":")}
+    """Known-finding signatures are given out only for exactly the two open shapes: texts equal although (a) one String
+    slot is the literal '<NULL>' on one side and unset on the other, nothing else differs; (b) one structure of a type
+    without a sofa feature is indexed in another view, nothing else differs."""
+    what = (msg or "").split(" ")[0].rstrip(":")
+    if (msg or "").startswith("different:") and sc.get("var") is not None:
+        d = _pair_diff(sc)
+        if d is not None:
+            slots, same_members = d
+            if same_members and len(slots) == 1 and {json.dumps(slots[0][2]), json.dumps(slots[0][3])} == \
+                    {"null", json.dumps({"s": NULL_SENTINEL})}:
+                return {"what": "null_sentinel_string"}
+            if not slots and not same_members:
+                ma, mb = sorted(map(tuple, sc["cas"]["members"])), sorted(map(tuple, sc["var"]["members"]))
+                only_a, only_b = [m for m in ma if m not in mb], [m for m in mb if m not in ma]
+                if len(only_a) == 1 and len(only_b) == 1 and only_a[0][1] == only_b[0][1]:
+                    import cassis
+                    _ts, schema = _schema(cassis, sc["ts"])
+                    t = next(o["type"] for o in sc["cas"]["objs"] if o["o"] == only_a[0][1])
+                    if all(f[0] != "sofa" for f in schema[t]["feats"]):
+                        return {"what": "view_of_sofaless_fs"}
+    return {"what": what}
 
 
 def distribution(scenarios, observations):
